@@ -188,7 +188,7 @@ def run(F, ck, tier):
         for e in sets:
             d0 = flow.flat(e.args[0]) if e.args else flow.EMPTY
             offs.append((_last_seg(e.node['a'][1]), 'x' if flow.has_param(d0, 'x') else 'y' if flow.has_param(d0, 'y') else '?'))
-        ok = sorted(offs) == [('0', 'x'), ('NUM_HASH_OUT_ELTS', 'y')]
+        ok = sorted(offs, key=str) == [('0', 'x'), ('NUM_HASH_OUT_ELTS', 'y')]
         ck.ob('R13.4', 'compress.layout', ok, 'x at 0, y at NUM_HASH_OUT_ELTS' if ok else 'compress places its inputs at %s instead of x@0, y@NUM_HASH_OUT_ELTS: native two_to_one no longer matches the in-circuit Merkle step' % offs, '%s:%d' % (cp.file, cp.line))
         nperm = sum(1 for e in fl.events if e.kind == 'call' and e.name == 'permute')
         ck.ob('R13.4', 'compress.one_permutation', nperm == 1, 'exactly one permutation' if nperm == 1 else 'compress applies the permutation %d times' % nperm, '%s:%d' % (cp.file, cp.line))
